@@ -674,7 +674,6 @@ static bool explore(const Args& a, const std::string& part) {
         if (o.threw) ++C[o.objects ? "threw_after_delivering_objects" : "threw"]; else ++C["accepted"];
         C["objects_traversed"] += o.objects;
         if (first_time(text)) benum::setv("outcomes", text);
-        if (first_time("cls:" + c.cls)) benum::setv("input_classes", c.cls);
         if (smp.want(rank)) benum::sample(c.cls + " | " + c.desc + " -> " + text + " objects=" + std::to_string(o.objects) + (c.input.size() <= 48 ? " input=" + benum::hex(c.input) : ""));
     };
     auto on_death = [&](uint64_t rank, const std::string& what, const std::string& err) {
